@@ -66,7 +66,7 @@ Proof. vm_compute. repeat split; reflexivity. Qed.
 Example C10_no_partial_nonvacuous :
   let '(d1, ok) := phase1_branch ex_cfg (1, 1)%N ex_ss ex_d0 in
   let r := rollback_branch ex_cfg (Some 7%nat) d1 (1, 1)%N in
-  r_fired r = true /\ r_db r = d1 /\ r_out r = None /\ r_ops (rollback_branch ex_cfg None d1 (1, 1)%N) = 12%nat.
+  r_fired r = true /\ r_db r = d1 /\ r_out r = status_plain_error /\ r_ops (rollback_branch ex_cfg None d1 (1, 1)%N) = 12%nat.
 Proof. vm_compute. repeat split; reflexivity. Qed.
 
 Example C10_marker_nonvacuous :
